@@ -294,6 +294,16 @@ def do_match(interp, st, pattern, s, mode):
     interp.builtins_used.add(f"re.{mode}")
     t = s.term()
     lang = P.language(mode)
+    if z3.is_app(t) and t.decl().name() == 'hexlify' and P.ngroups == 0 and _hex_language_included(pattern, mode, lang):
+        # the subject is a hexlify() result: every non-empty lower-case hex string is in the pattern's language
+        # (regular-language inclusion decided once, in process), so the match succeeds iff the string is non-empty
+        s_no = st.copy()
+        if s_no.assume(z3.Length(t) == 0) and interp.feasible(s_no):
+            yield from do_match(interp, s_no, pattern, mk_like(s, mk_str('')), mode)
+        if st.assume(z3.Length(t) > 0):
+            names = st.alloc(HDict({}))
+            yield st, st.alloc(HObj(MatchModel, dict(string=s, _groups=VTuple([]), _names=names)))
+        return
     # no match
     s_no = st.copy()
     if s_no.assume(z3.Not(z3.InRe(t, lang))):
@@ -370,6 +380,21 @@ def split_vars(parts, tail_nl, prefix):
         xs.append(x)
         cons.append(z3.InRe(x, z3.Option(z3.Re(mk_str('\n')))))
     return xs, cons
+
+
+_HEX_INCL = {}
+
+
+def _hex_language_included(pattern, mode, lang):
+    key = (pattern, mode)
+    if key not in _HEX_INCL:
+        x = z3.String('x!hexincl')
+        hexplus = z3.Plus(z3.Union(z3.Range(mk_str('0'), mk_str('9')), z3.Range(mk_str('a'), mk_str('f'))))
+        sol = z3.Solver()
+        sol.set('timeout', 3000)
+        sol.add(z3.InRe(x, hexplus), z3.Not(z3.InRe(x, lang)))
+        _HEX_INCL[key] = sol.check() == z3.unsat
+    return _HEX_INCL[key]
 
 
 def _count_groups(items):
